@@ -309,6 +309,13 @@ def rule_pf(repo, tier):
         full = [u for u in uses if not diag_only(u)]
         chk('likelihood uses the full R', bool(uses) and bool(full), 'relative_likelihood reads the observation covariance only through its diagonal: for a correlated R '
             'the importance weights are those of another noise model')
+    # the weights are RELATIVE likelihoods: scale-free in R and in the observation dimension.  An absolute constant floor / cap on the un-normalised
+    # density (clamp_min(1e-8), + 1e-12, max(q, c)) makes all particles equal as soon as every density is below it - large R, many observations
+    floors = [c for c in ast.walk(lk.node) if isinstance(c, ast.Call) and (dotted(c.func) or (c.func.attr if isinstance(c.func, ast.Attribute) else '')).split('.')[-1]
+              in ('clamp', 'clamp_min', 'clamp_', 'clamp_min_', 'clip', 'maximum', 'nan_to_num')
+              and any(isinstance(a_, ast.Constant) and isinstance(a_.value, (int, float)) and not isinstance(a_.value, bool) for a_ in list(c.args) + [k.value for k in c.keywords])]
+    chk('likelihood without an absolute floor', not floors, 'relative_likelihood clamps the un-normalised density with an absolute constant (`%s`): whenever every particle\'s '
+        'density lies below it (large R, several observations) the weights become uniform and the measurement is ignored' % (src(floors[0])[:40] if floors else ''))
     # documentation, step 3: q = p(y | x^-_k) - the likelihood is evaluated at the PROPAGATED particle
     ok2 = False
     if rl and len(rl[0].args) == 3:
@@ -326,7 +333,8 @@ def rule_pf(repo, tier):
     # sigma points.  Calling the model itself (System.forward) evaluates f at the model's own clock, whatever t says, and advances that clock.
     prop_calls = [n for n in ast.walk(x) if isinstance(n, ast.Call) and isinstance(n.func, ast.Attribute) and n.func.attr == 'state_transition']
     via_forward = [n for n in ast.walk(x) if isinstance(n, ast.Call) and dotted(n.func) == 'self.model']
-    okp = bool(prop_calls) and not via_forward and all(len(c.args) >= 3 and dotted(c.args[2]) == 't' or any(k.arg == 't' and dotted(k.value) == 't' for k in c.keywords)
+    has_t = lambda e: any(isinstance(y, ast.Name) and y.id == 't' for y in ast.walk(e))      # t itself, or t resolved against None (systime if t is None else t)
+    okp = bool(prop_calls) and not via_forward and all((len(c.args) >= 3 and has_t(c.args[2])) or any(k.arg == 't' and has_t(k.value) for k in c.keywords)
                                                        for c in prop_calls)
     chk('propagation-at-t', okp, 'the particles are propagated by %s: the time argument t of the step does not reach f (System.forward uses the model\'s '
         'internal clock and then advances it), so on a time-varying model the particle cloud belongs to another time step than the likelihood, and every '
@@ -546,10 +554,47 @@ def rule_sigma(repo, tier):
     return res
 
 
+@guarded
+def rule_time(repo, tier):
+    """The filters document `t` as the time at which the model is evaluated.  One step hands the model the same time everywhere: the linearisation point
+    (set_refpoint), the transition and the observation.  A collaborator call that omits `t` evaluates at the model's internal clock instead, so the
+    Jacobians, the predicted mean and the predicted observation belong to different times for a time-varying system."""
+    res = RuleResult('C13.TIME', 'EKF / UKF / PF: every call of the model inside one step (set_refpoint, state_transition, observation) receives the step\'s time '
+                     'argument t', floor=8)
+    for mod, q in ((EKF, 'EKF.forward'), (UKF, 'UKF.forward'), (PF, 'PF.forward')):
+        f = repo.func(mod, q)
+        if 't' not in f.params:
+            raise AnalysisError('C13.TIME: %s has no parameter t' % q)
+        for c in paths.calls_in(f.node):
+            if not (isinstance(c.func, ast.Attribute) and c.func.attr in ('set_refpoint', 'state_transition', 'observation') and
+                    (dotted(c.func.value) or '').endswith('model')):
+                continue
+            has_t = any(k.arg == 't' and any(isinstance(x, ast.Name) and x.id == 't' for x in ast.walk(k.value)) for k in c.keywords) or \
+                (len(c.args) >= 3 and any(isinstance(x, ast.Name) and x.id == 't' for x in ast.walk(c.args[2])))
+            res.inst({'function': f.fq, 'call': src(c)[:60], 'receives t': has_t}, (f.fq, src(c)[:70]))
+            if not has_t:
+                res.add(Finding('C13.TIME', f, '`%s` does not receive the time argument of the step: the model is evaluated / linearised at its internal clock there, at `t` '
+                                'elsewhere - for a time-varying system the gain and the mean belong to different times' % src(c)[:60], node=c,
+                                construct='model call without t|' + c.func.attr))
+        # a docstring that promises "If None, current system time is used" obliges the function to resolve None to the model's clock before the model is called
+        doc = ast.get_docstring(f.node) or ''
+        import re as _re
+        promised = bool(_re.search(r'\bt\b[^\n]*\n?[^\n]*\n?\s*If ``None``, current system time is used', doc))
+        if promised:
+            resolves = any(isinstance(n, (ast.IfExp, ast.If)) and any(isinstance(c, ast.Compare) and isinstance(c.left, ast.Name) and c.left.id == 't' and
+                                                                    any(isinstance(x, ast.Constant) and x.value is None for x in c.comparators) for c in ast.walk(n.test))
+                           and any((dotted(x) or '').endswith('systime') or (dotted(x) or '').endswith('._t') for x in ast.walk(n)) for n in ast.walk(f.node))
+            res.inst({'function': f.fq, 'documented': 'If None, current system time is used', 'None resolved to the model clock': resolves}, (f.fq, 'none-time'))
+            if not resolves:
+                res.add(Finding('C13.TIME', f, '%s documents "t: If None, current system time is used" but hands the literal None to the model: a time-varying transition / '
+                                'observation function receives t = None and fails (or silently uses a wrong time)' % q, construct='documented None time not resolved'))
+    return res
+
+
 def _rules_core(repo, tier):
     from ..fresh import rule_fresh
     from ..conf import rule_conf
-    return [rule_pure13(repo, tier), rule_sym(repo, tier), rule_innov(repo, tier), rule_gain(repo, tier), rule_xcov(repo, tier), rule_orient(repo, tier), rule_pf(repo, tier), rule_inverse(repo, tier), rule_sigma(repo, tier),
+    return [rule_pure13(repo, tier), rule_sym(repo, tier), rule_innov(repo, tier), rule_gain(repo, tier), rule_xcov(repo, tier), rule_orient(repo, tier), rule_pf(repo, tier), rule_inverse(repo, tier), rule_sigma(repo, tier), rule_time(repo, tier),
             rule_conf(repo, 'C13.CONF', [(EKF, 'EKF'), (UKF, 'UKF'), (PF, 'PF')]),
             rule_fresh(repo, 'C13.FRESH', 'nothing a filter step writes in place is loaded from the filter object: work tensors are allocated per step',
                        [(EKF, 'EKF.forward'), (UKF, 'UKF.forward'), (UKF, 'UKF.sigma_weight_points'), (UKF, 'UKF.compute_cov'), (PF, 'PF.forward'),
